@@ -295,6 +295,9 @@ fn other_cases() -> Vec<MCase> {
         push(key, "<https://rachel.url>", None, nu(None, Some("https://rachel.url")), "bracketed_valid_url");
         push(key, "{name: Rachel, url: 'https://r.url'} (yaml)", Some("{name: Rachel, url: 'https://r.url'}"), nu(Some("Rachel"), Some("https://r.url")), "name_url_mapping");
         push(key, "{name: Rachel} (yaml)", Some("{name: Rachel}"), nu(Some("Rachel"), None), "name_url_mapping");
+        // the fields of the mapping are trimmed like the string forms; a blank field is an absent one
+        push(key, "{name: '   ', url: ' https://rachel.url '} (yaml)", Some("{name: '   ', url: ' https://rachel.url '}"), nu(None, Some("https://rachel.url")), "name_url_mapping");
+        push(key, "{name: ' Rachel  ', url: ''} (yaml)", Some("{name: ' Rachel  ', url: ''}"), nu(Some("Rachel"), None), "name_url_mapping");
         push(key, "{x: y} (yaml)", Some("{x: y}"), Exp::Refuse, "outside_name_url");
         push(key, "[a] (yaml)", Some("[a]"), Exp::Refuse, "outside_name_url");
     }
